@@ -14,6 +14,8 @@ CONSTANTS
   MsgKinds = {"a", "z"}
   WithCut = TRUE
   WithFormat = TRUE
+  WithOutage = FALSE
+  Retries = 2
 INVARIANT TypeOK
 INVARIANT RoundTrip
 INVARIANT WriteOk
